@@ -27,6 +27,7 @@ class Monitor(object):
         self.votes = {}           # (voter, term) -> (candidate, incarnation)
         self.incarnation = {}
         self.max_term_seen = {}   # voter -> (term, incarnation)
+        self.max_term_ever = {}   # voter -> highest term it ever was in (all incarnations)
         self.acked = {}           # nid -> {idx: term} acknowledged to a leader or counted as leader
         self.member_since = {}
         self.heard = {}
@@ -77,6 +78,48 @@ class Monitor(object):
                 w[rid] = d[0]
                 self.rid_of.setdefault(d[0], (nid, rid))
         self.waiting[nid] = w
+
+    def note_callbacks(self, rec, sim):
+        for cb, res, err in sim.fired:
+            self.stats['callbacks'] += 1
+            self.fired.setdefault(cb, []).append((res, err, self.step))
+            if len(self.fired[cb]) > 1:
+                self.rec_c02(cb, 'callback of command %d fired %d times: %r' % (cb, len(self.fired[cb]), self.fired[cb]))
+            if err in ERR_NEVER_APPLIED:
+                self.must_not_apply[cb] = ERR_NEVER_APPLIED[err]
+                if cb in self.idx_of_cid:
+                    self.rec_c02(cb, 'command %d reported %s but is applied at position %d'
+                                 % (cb, ERR_NEVER_APPLIED[err], self.idx_of_cid[cb]))
+            if err == 0:
+                self.success[cb] = res
+
+    def absorb_dead(self, sim, n, o):
+        """a process that died inside a step: what it committed and applied before dying did happen"""
+        log = self.log_of(o)
+        commit, applied = g(o, 'raftCommitIndex'), g(o, 'raftLastApplied')
+        pc, pa = self.prev.get(n, (None, None))
+        for e in log:
+            if e[1] <= commit:
+                self.committed.setdefault(e[1], (e[0], e[2]))
+        if pa is not None:
+            for idx in range(pa + 1, applied + 1):
+                e = self.entry_at(log, idx)
+                if e is None:
+                    continue
+                if idx in self.cmd_at:
+                    if self.cmd_at[idx] != e[0]:
+                        self.rec('C01', 'position %d: node %d applied a different command than an earlier node' % (idx, n))
+                else:
+                    self.cmd_at[idx] = e[0]
+                    self.term_at[idx] = e[2]
+                    kind, a, b = sim.cid_of_command(e[0])
+                    if kind == 0:
+                        if a in self.idx_of_cid and self.idx_of_cid[a] != idx:
+                            self.rec('C02', 'command %d applied at two positions %d and %d' % (a, self.idx_of_cid[a], idx))
+                        self.idx_of_cid.setdefault(a, idx)
+                        if a in self.must_not_apply:
+                            self.rec_c02(a, 'command %d reported %s but is applied at position %d'
+                                         % (a, self.must_not_apply[a], idx))
 
     def rec(self, prop, msg, finding=None):
         # C01-C04 are stated "as long as no node loses its memory": after a memory-only node was killed
@@ -136,11 +179,13 @@ class Monitor(object):
                     self.note_acks(sim, n, sim.abandoned)
                     if self.journaled:
                         self.down_logs[n] = self.log_of(sim.abandoned)
+                    self.absorb_dead(sim, n, sim.abandoned)
                 self.prev.pop(n, None)
                 self.prev_log.pop(n, None)
                 if sim.kill_info.get('in_delete_to'):
                     self.trigger.setdefault('kf_c08_1:%d' % n, self.step)
                 self.check_dump_file(rec, sim, n)      # what the dead process left on disk
+                self.note_callbacks(rec, sim)          # callbacks it fired before dying did fire
                 return
             k = 'tick' if k == 'tickkill' else 'deliver'
             ev = ((k,) + tuple(ev[1:-1]))
@@ -169,18 +214,7 @@ class Monitor(object):
             for rid, cb in prev_waiting.items():
                 self.rid_of.setdefault(cb, (nid, rid))
         # callbacks (C02)
-        for cb, res, err in sim.fired:
-            self.stats['callbacks'] += 1
-            self.fired.setdefault(cb, []).append((res, err, self.step))
-            if len(self.fired[cb]) > 1:
-                self.rec_c02(cb, 'callback of command %d fired %d times: %r' % (cb, len(self.fired[cb]), self.fired[cb]))
-            if err in ERR_NEVER_APPLIED:
-                self.must_not_apply[cb] = ERR_NEVER_APPLIED[err]
-                if cb in self.idx_of_cid:
-                    self.rec_c02(cb, 'command %d reported %s but is applied at position %d'
-                                 % (cb, ERR_NEVER_APPLIED[err], self.idx_of_cid[cb]))
-            if err == 0:
-                self.success[cb] = res
+        self.note_callbacks(rec, sim)
         if nid is None or nid not in sim.nodes:
             return
         o = sim.nodes[nid]
@@ -534,6 +568,7 @@ class Monitor(object):
                 self.rec('C07', 'node %d: term moved backwards %d -> %d' % (nid, mt[0], term))
         if mt is None or term >= mt[0]:
             self.max_term_seen[nid] = (term, inc)
+        self.max_term_ever[nid] = max(self.max_term_ever.get(nid, 0), term)
         if not self.journaled:
             return
         # the two steps in which a restarted node rebuilds itself from its files: the restart itself (journal read)
@@ -564,10 +599,19 @@ class Monitor(object):
             if lost:
                 last_kill = [x for x in self.kill_infos if x['node'] == nid]
                 inside = bool(last_kill and last_kill[-1].get('in_delete_to'))
+                # entries of a term older than one this node had acknowledged in an earlier incarnation were
+                # accepted from an outdated leader (known finding KF-C07-2): they conflict with what the node's
+                # dump holds and are not owed
+                top = self.max_term_ever.get(nid, 0)
+                stale = all(ack[i] < top for i in lost)
+                # a node whose journal lost committed entries in an earlier head drop (KF-C08-1) keeps a commit index
+                # beyond its log: what it "counts itself for" from then on is not on its disk
+                damaged = ('kf_c08_1:%d' % nid) in self.trigger and bool(log) and g(o, 'raftCommitIndex') > log[-1][1]
                 self.rec('C06', 'node %d restarted without acknowledged entries %r (journal now covers %d..%d)%s'
                          % (nid, lost[:6], base, log[-1][1] if log else 0,
-                            ' after a kill inside the journal head drop' if inside else ''),
-                         finding='KF-C08-1' if inside else None)
+                            ' after a kill inside the journal head drop' if inside else
+                            ' (entries of a term older than term %d it had acknowledged before an earlier restart)' % top if stale else ''),
+                         finding='KF-C08-1' if (inside or damaged) else ('KF-C07-2' if (stale and 'kf_c07_1' in self.trigger) else None))
                 if inside:
                     self.trigger.setdefault('kf_c08_1_effect', self.step)
             for i in [i for i in ack if i > (log[-1][1] if log else 0)]:
